@@ -7,8 +7,13 @@ package standard
 // synccommitteeaggregator/standard.Service.  Scripted: sync committee duties provider, accounts
 // provider, head root provider, contribution provider, chain time, scheduler (verifsupport), recording
 // submitters.  Signer: either a scripted one (chooses selection signatures so that the scalar of the
-// aggregator rule is the one the scenario asks for; returns a zero signature for the members the
-// scenario marks) or the REAL signer/standard.Service over in-memory wallet accounts.
+// aggregator rule is the one the scenario asks for) or the REAL signer/standard.Service over in-memory
+// wallet accounts.  Both present the signer faults the specification's environment chooses PER SIGNING
+// STEP AND SLOT: the zero signature (no error for the batch) in the position of chosen members at
+// SignSyncCommitteeSelections / SignSyncCommitteeRoots / SignContributionAndProofs - what the multi
+// signers hand back for an account that refuses or fails to sign - or an error for the whole batch;
+// what was really answered is recorded and logged.  A job that panics is logged as Crash, one that does
+// not return as Hung.
 
 import (
 	"context"
@@ -59,6 +64,12 @@ type c15HReq struct {
 	V   uint64 `json:"v"`
 	Sub uint64 `json:"sub"`
 	H   uint64 `json:"h"`
+	Z   bool   `json:"z"` // the signer answers this request with the zero signature
+}
+
+type c15Pair struct {
+	V   uint64 `json:"v"`
+	Sub uint64 `json:"sub"`
 }
 
 type c15Step struct {
@@ -72,7 +83,9 @@ type c15Step struct {
 	V       uint64    `json:"v"`
 	Idx     []uint64  `json:"idx"`
 	Acct    bool      `json:"acct"`
-	Zero    bool      `json:"zero"`
+	Err     bool      `json:"err"` // FirePrepare / FireMessage / FireAggregate: the step's signer answers the batch with an error
+	Zv      []uint64  `json:"zv"`  // FireMessage: members whose root signature is zero
+	Zp      []c15Pair `json:"zp"`  // FireAggregate: pairs whose contribution-and-proof signature is zero
 	Root    uint64    `json:"root"`
 	Epoch   uint64    `json:"epoch"`
 	Nc      bool      `json:"nc"`
@@ -147,7 +160,22 @@ func c15IndexOf(a e2wtypes.Account, byName map[string]uint64) (uint64, bool) {
 
 // ---- signers ------------------------------------------------------------------------------------
 
-type c15SelRec struct{ v, sub, h uint64 }
+type c15SelRec struct {
+	v, sub, h, slot uint64
+	z           bool
+}
+
+// c15Faults is what the signer does wrong during the current step (set by the driver before it fires a job).
+type c15Faults struct {
+	selZero  map[[2]uint64]bool // (validator, subcommittee)
+	selErr   bool
+	rootZero map[uint64]bool
+	rootErr  bool
+	cpZero   map[[2]uint64]bool
+	cpErr    bool
+}
+
+var errC15Injected = errors.New("c15: the signer fails the whole batch (scenario)")
 
 type c15RootCall struct {
 	vs    []uint64 // 0 for a nil account
@@ -163,18 +191,60 @@ type c15Recorder struct {
 	byName    map[string]uint64
 	sel       []c15SelRec
 	rootCalls []c15RootCall
+	flt       c15Faults
+	// what was really answered
+	selErrs  int
+	rootErrs int
+	cpErrs   int
+	rootZero []uint64
+	cpZero   [][2]uint64
+	cpSigs   map[[3]uint64]phase0.BLSSignature // (slot, validator, subcommittee) -> signature returned
+}
+
+// answerSel applies the step's faults to the selection signatures and records the answer; mu is held.
+func (r *c15Recorder) answerSel(accounts []e2wtypes.Account, slot phase0.Slot, subs []uint64, sigs []phase0.BLSSignature) {
+	for i, a := range accounts {
+		v, _ := c15IndexOf(a, r.byName)
+		if r.flt.selZero[[2]uint64{v, subs[i]}] {
+			sigs[i] = phase0.BLSSignature{}
+		}
+		r.sel = append(r.sel, c15SelRec{v: v, sub: subs[i], h: c15H(sigs[i]), slot: uint64(slot), z: sigs[i].IsZero()})
+	}
+}
+
+// answerCp does the same for contribution-and-proof signatures.
+func (r *c15Recorder) answerCp(cps []*altair.ContributionAndProof, sigs []phase0.BLSSignature) {
+	if r.cpSigs == nil {
+		r.cpSigs = map[[3]uint64]phase0.BLSSignature{}
+	}
+	for i, cp := range cps {
+		if i >= len(sigs) || cp == nil || cp.Contribution == nil {
+			continue
+		}
+		v, sub := uint64(cp.AggregatorIndex), cp.Contribution.SubcommitteeIndex
+		if r.flt.cpZero[[2]uint64{v, sub}] {
+			sigs[i] = phase0.BLSSignature{}
+		}
+		if sigs[i].IsZero() {
+			r.cpZero = append(r.cpZero, [2]uint64{v, sub})
+		}
+		r.cpSigs[[3]uint64{uint64(cp.Contribution.Slot), v, sub}] = sigs[i]
+	}
 }
 
 // c15ScriptedSigner is the scripted signer.
 type c15ScriptedSigner struct {
 	c15Recorder
 	want map[[2]uint64]uint64 // (v, sub) -> scalar asked for by the scenario
-	zero map[uint64]bool
 }
 
 func (s *c15ScriptedSigner) SignSyncCommitteeSelections(_ context.Context, accounts []e2wtypes.Account, slot phase0.Slot, subs []uint64) ([]phase0.BLSSignature, error) {
 	s.mu.Lock()
 	defer s.mu.Unlock()
+	if s.flt.selErr {
+		s.selErrs++
+		return nil, errC15Injected
+	}
 	res := make([]phase0.BLSSignature, len(accounts))
 	for i, a := range accounts {
 		v, ok := c15IndexOf(a, s.byName)
@@ -194,8 +264,8 @@ func (s *c15ScriptedSigner) SignSyncCommitteeSelections(_ context.Context, accou
 			}
 		}
 		res[i] = sig
-		s.sel = append(s.sel, c15SelRec{v: v, sub: subs[i], h: c15H(sig)})
 	}
+	s.answerSel(accounts, slot, subs, res)
 	return res, nil
 }
 
@@ -212,6 +282,10 @@ func (s *c15ScriptedSigner) SignSyncCommitteeRoots(_ context.Context, accounts [
 	s.mu.Lock()
 	defer s.mu.Unlock()
 	call := c15RootCall{epoch: uint64(epoch), root: c15RootID(root)}
+	if s.flt.rootErr {
+		s.rootErrs++
+		return nil, errC15Injected
+	}
 	res := make([]phase0.BLSSignature, len(accounts))
 	for i, a := range accounts {
 		v, ok := c15IndexOf(a, s.byName)
@@ -222,7 +296,8 @@ func (s *c15ScriptedSigner) SignSyncCommitteeRoots(_ context.Context, accounts [
 			continue
 		}
 		call.vs = append(call.vs, v)
-		if s.zero[v] {
+		if s.flt.rootZero[v] {
+			s.rootZero = append(s.rootZero, v)
 			continue
 		}
 		res[i] = c15ScriptedRootSig(v, uint64(epoch), c15RootID(root))
@@ -231,12 +306,28 @@ func (s *c15ScriptedSigner) SignSyncCommitteeRoots(_ context.Context, accounts [
 	return res, nil
 }
 
-func (*c15ScriptedSigner) SignContributionAndProofs(_ context.Context, accounts []e2wtypes.Account, _ []*altair.ContributionAndProof) ([]phase0.BLSSignature, error) {
+func (s *c15ScriptedSigner) SignContributionAndProofs(_ context.Context, accounts []e2wtypes.Account, cps []*altair.ContributionAndProof) ([]phase0.BLSSignature, error) {
+	s.mu.Lock()
+	defer s.mu.Unlock()
+	if s.flt.cpErr {
+		s.cpErrs++
+		return nil, errC15Injected
+	}
+	if len(accounts) != len(cps) {
+		return nil, errors.New("c15: accounts and messages of different length")
+	}
 	res := make([]phase0.BLSSignature, len(accounts))
 	for i := range res {
+		v, _ := c15IndexOf(accounts[i], s.byName)
 		res[i][0] = 0xcc
-		res[i][1] = byte(i + 1)
+		binary.LittleEndian.PutUint64(res[i][1:9], v)
+		if cps[i] != nil && cps[i].Contribution != nil {
+			binary.LittleEndian.PutUint64(res[i][9:17], uint64(cps[i].Contribution.Slot))
+			binary.LittleEndian.PutUint64(res[i][17:25], cps[i].Contribution.SubcommitteeIndex)
+			binary.LittleEndian.PutUint64(res[i][25:33], uint64(cps[i].AggregatorIndex))
+		}
 	}
+	s.answerCp(cps, res)
 	return res, nil
 }
 
@@ -247,36 +338,65 @@ type c15RealSigner struct {
 }
 
 func (s *c15RealSigner) SignSyncCommitteeSelections(ctx context.Context, accounts []e2wtypes.Account, slot phase0.Slot, subs []uint64) ([]phase0.BLSSignature, error) {
+	s.mu.Lock()
+	if s.flt.selErr {
+		s.selErrs++
+		s.mu.Unlock()
+		return nil, errC15Injected
+	}
+	s.mu.Unlock()
 	sigs, err := s.real.SignSyncCommitteeSelections(ctx, accounts, slot, subs)
 	s.mu.Lock()
 	defer s.mu.Unlock()
-	if err == nil {
-		for i, a := range accounts {
-			v, _ := c15IndexOf(a, s.byName)
-			s.sel = append(s.sel, c15SelRec{v: v, sub: subs[i], h: c15H(sigs[i])})
-		}
+	if err == nil && len(sigs) == len(accounts) {
+		// a multi-signer leaves the zero signature in the position of an account that did not sign
+		s.answerSel(accounts, slot, subs, sigs)
 	}
 	return sigs, err
 }
 
 func (s *c15RealSigner) SignSyncCommitteeRoots(ctx context.Context, accounts []e2wtypes.Account, epoch phase0.Epoch, root phase0.Root) ([]phase0.BLSSignature, error) {
+	s.mu.Lock()
+	if s.flt.rootErr {
+		s.rootErrs++
+		s.mu.Unlock()
+		return nil, errC15Injected
+	}
+	s.mu.Unlock()
 	sigs, err := s.real.SignSyncCommitteeRoots(ctx, accounts, epoch, root)
 	s.mu.Lock()
 	defer s.mu.Unlock()
 	call := c15RootCall{epoch: uint64(epoch), root: c15RootID(root), err: err != nil}
-	for _, a := range accounts {
+	for i, a := range accounts {
 		v, ok := c15IndexOf(a, s.byName)
 		if !ok {
 			call.nils++
 		}
 		call.vs = append(call.vs, v)
+		if ok && err == nil && i < len(sigs) && s.flt.rootZero[v] {
+			sigs[i] = phase0.BLSSignature{}
+			s.rootZero = append(s.rootZero, v)
+		}
 	}
 	s.rootCalls = append(s.rootCalls, call)
 	return sigs, err
 }
 
 func (s *c15RealSigner) SignContributionAndProofs(ctx context.Context, accounts []e2wtypes.Account, cps []*altair.ContributionAndProof) ([]phase0.BLSSignature, error) {
-	return s.real.SignContributionAndProofs(ctx, accounts, cps)
+	s.mu.Lock()
+	if s.flt.cpErr {
+		s.cpErrs++
+		s.mu.Unlock()
+		return nil, errC15Injected
+	}
+	s.mu.Unlock()
+	sigs, err := s.real.SignContributionAndProofs(ctx, accounts, cps)
+	s.mu.Lock()
+	defer s.mu.Unlock()
+	if err == nil {
+		s.answerCp(cps, sigs)
+	}
+	return sigs, err
 }
 
 type c15AnySigner interface {
@@ -319,7 +439,6 @@ type c15Member struct {
 	v    uint64
 	idx  []uint64
 	acct bool
-	zero bool
 }
 
 type c15SyncDuties struct {
@@ -596,7 +715,7 @@ func c15Build(t *testing.T, ctx context.Context, sc *c15Scenario, st c15Step) *c
 		w.rec = &w.realSig.c15Recorder
 		sig = w.realSig
 	} else {
-		w.scripted = &c15ScriptedSigner{want: map[[2]uint64]uint64{}, zero: map[uint64]bool{}}
+		w.scripted = &c15ScriptedSigner{want: map[[2]uint64]uint64{}}
 		w.scripted.byName = w.byName
 		w.rec = &w.scripted.c15Recorder
 		sig = w.scripted
@@ -675,7 +794,7 @@ func (c15Refresher) Refresh(_ context.Context) {}
 
 func (w *c15World) addMember(t *testing.T, st c15Step) {
 	w.duties.mu.Lock()
-	w.duties.members = append(w.duties.members, c15Member{v: st.V, idx: st.Idx, acct: st.Acct, zero: st.Zero})
+	w.duties.members = append(w.duties.members, c15Member{v: st.V, idx: st.Idx, acct: st.Acct})
 	w.duties.mu.Unlock()
 	if !st.Acct {
 		return
@@ -689,7 +808,6 @@ func (w *c15World) addMember(t *testing.T, st c15Step) {
 		}
 	} else {
 		acc = c15ScriptedAccount(st.V)
-		w.scripted.zero[st.V] = st.Zero
 	}
 	w.byName[acc.Name()] = st.V
 	w.accOf[st.V] = acc
@@ -744,6 +862,45 @@ func (w *c15World) decodeMsg(m *altair.SyncCommitteeMessage, call *c15RootCall) 
 	return 0, 0, 0
 }
 
+// fire runs the named job like the scheduler's timer path does, on a goroutine of its own so that a panic
+// of the job can be recovered (-> Crash) and a job that does not return is noticed (-> Hung).
+func (w *c15World) fire(ctx context.Context, name string) (fired bool, crash string, hung bool) {
+	type outcome struct {
+		fired bool
+		crash string
+	}
+	done := make(chan outcome, 1)
+	go func() {
+		var o outcome
+		defer func() {
+			if r := recover(); r != nil {
+				o.fired = true
+				o.crash = fmt.Sprint(r)
+			}
+			done <- o
+		}()
+		o.fired = w.sched.Fire(ctx, name)
+	}()
+	select {
+	case o := <-done:
+		return o.fired, o.crash, false
+	case <-time.After(30 * time.Second):
+		return true, "", true
+	}
+}
+
+// setFaults installs the signer faults of the step that is about to run and forgets the answers of the last one.
+func (w *c15World) setFaults(f c15Faults) {
+	w.rec.mu.Lock()
+	w.rec.flt = f
+	w.rec.sel = nil
+	w.rec.rootCalls = nil
+	w.rec.selErrs, w.rec.rootErrs, w.rec.cpErrs = 0, 0, 0
+	w.rec.rootZero = nil
+	w.rec.cpZero = nil
+	w.rec.mu.Unlock()
+}
+
 func TestVerifC15(t *testing.T) {
 	var scenarios []c15Scenario
 	verifsupport.Scenarios(t, &scenarios)
@@ -760,7 +917,24 @@ func TestVerifC15(t *testing.T) {
 			sc.Epp = 2
 		}
 		var w *c15World
+		dead := false
+		// abnormal says what a job that did not end normally is logged as.
+		abnormal := func(st c15Step, crash string, hung bool) bool {
+			if crash == "" && !hung {
+				return false
+			}
+			ev := verifsupport.Ev{"sc": sc.Sc, "ev": "Crash", "step": st.Ev, "slot": st.Slot, "what": crash}
+			if hung {
+				ev["ev"] = "Hung"
+			}
+			tr.Emit(ev)
+			dead = true
+			return true
+		}
 		for _, st := range sc.Steps {
+			if dead {
+				break
+			}
 			switch st.Ev {
 			case "Reset":
 				w = c15Build(t, ctx, sc, st)
@@ -773,8 +947,7 @@ func TestVerifC15(t *testing.T) {
 				if idx == nil {
 					idx = []uint64{}
 				}
-				// With the real signer a signature cannot be made to fail: the member is healthy.
-				tr.Emit(verifsupport.Ev{"sc": sc.Sc, "ev": "Member", "v": st.V, "idx": idx, "acct": st.Acct, "zero": st.Zero && !w.real})
+				tr.Emit(verifsupport.Ev{"sc": sc.Sc, "ev": "Member", "v": st.V, "idx": idx, "acct": st.Acct})
 			case "Advance":
 				w.ct.SetSlot(st.Now)
 				tr.Emit(verifsupport.Ev{"sc": sc.Sc, "ev": "Advance", "now": st.Now})
@@ -805,6 +978,12 @@ func TestVerifC15(t *testing.T) {
 				sort.Slice(prep, func(i, j int) bool { return prep[i] < prep[j] })
 				tr.Emit(verifsupport.Ev{"sc": sc.Sc, "ev": "Schedule", "epoch": st.Epoch, "nc": st.Nc, "prep": prep, "early": early})
 			case "FirePrepare":
+				flt := c15Faults{selZero: map[[2]uint64]bool{}, selErr: st.Err}
+				for _, h := range st.Hs {
+					if h.Z {
+						flt.selZero[[2]uint64{h.V, h.Sub}] = true
+					}
+				}
 				if !w.real {
 					w.scripted.mu.Lock()
 					w.scripted.want = map[[2]uint64]uint64{}
@@ -813,19 +992,25 @@ func TestVerifC15(t *testing.T) {
 					}
 					w.scripted.mu.Unlock()
 				}
-				w.rec.mu.Lock()
-				w.rec.sel = nil
-				w.rec.mu.Unlock()
+				w.setFaults(flt)
 				w.mess.mu.Lock()
 				w.mess.lastSel = nil
 				w.mess.prepErr = false
 				w.mess.mu.Unlock()
-				fired := w.sched.Fire(ctx, fmt.Sprintf("Prepare sync committee messages for slot %d", st.Slot))
+				fired, crash, hung := w.fire(ctx, fmt.Sprintf("Prepare sync committee messages for slot %d", st.Slot))
+				if abnormal(st, crash, hung) {
+					break
+				}
 				hs := make([]verifsupport.Ev, 0)
+				ownslot := true
 				w.rec.mu.Lock()
 				for _, r := range w.rec.sel {
-					hs = append(hs, verifsupport.Ev{"v": r.v, "sub": r.sub, "h": r.h})
+					hs = append(hs, verifsupport.Ev{"v": r.v, "sub": r.sub, "h": r.h, "z": r.z})
+					if r.slot != st.Slot {
+						ownslot = false
+					}
 				}
+				selerr := w.rec.selErrs > 0
 				w.rec.mu.Unlock()
 				sel := make([]verifsupport.Ev, 0)
 				w.mess.mu.Lock()
@@ -839,21 +1024,26 @@ func TestVerifC15(t *testing.T) {
 				msgJob, exists := w.jobSlots("Sync committee messages for slot %d")[st.Slot]
 				inslot := exists && !msgJob.Runtime.Before(w.ct.StartOfSlot(phase0.Slot(st.Slot))) && msgJob.Runtime.Before(w.ct.StartOfSlot(phase0.Slot(st.Slot+1)))
 				tr.Emit(verifsupport.Ev{"sc": sc.Sc, "ev": "FirePrepare", "slot": st.Slot, "fired": fired, "hs": hs, "sel": sel,
-					"msgjob": exists, "inslot": inslot, "err": prepErr})
+					"msgjob": exists, "inslot": inslot, "err": prepErr, "selerr": selerr, "ownslot": ownslot})
 			case "FireMessage":
 				w.heads.mu.Lock()
 				w.heads.calls = nil
 				w.heads.mu.Unlock()
-				w.rec.mu.Lock()
-				w.rec.rootCalls = nil
-				w.rec.mu.Unlock()
+				flt := c15Faults{rootZero: map[uint64]bool{}, rootErr: st.Err}
+				for _, v := range st.Zv {
+					flt.rootZero[v] = true
+				}
+				w.setFaults(flt)
 				w.msgSub.mu.Lock()
 				w.msgSub.msgs = nil
 				w.msgSub.mu.Unlock()
 				w.mess.mu.Lock()
 				w.mess.msgErr = false
 				w.mess.mu.Unlock()
-				fired := w.sched.Fire(ctx, fmt.Sprintf("Sync committee messages for slot %d", st.Slot))
+				fired, crash, hung := w.fire(ctx, fmt.Sprintf("Sync committee messages for slot %d", st.Slot))
+				if abnormal(st, crash, hung) {
+					break
+				}
 				root := uint64(0)
 				w.heads.mu.Lock()
 				if len(w.heads.calls) > 0 {
@@ -872,7 +1062,10 @@ func TestVerifC15(t *testing.T) {
 					nils = c.nils
 					signerr = c.err
 				}
+				zv := append([]uint64{}, w.rec.rootZero...)
+				rooterr := w.rec.rootErrs > 0
 				w.rec.mu.Unlock()
+				sort.Slice(zv, func(i, j int) bool { return zv[i] < zv[j] })
 				msgs := make([]verifsupport.Ev, 0)
 				w.msgSub.mu.Lock()
 				for _, m := range w.msgSub.msgs {
@@ -887,7 +1080,7 @@ func TestVerifC15(t *testing.T) {
 				msgErr := w.mess.msgErr
 				w.mess.mu.Unlock()
 				tr.Emit(verifsupport.Ev{"sc": sc.Sc, "ev": "FireMessage", "slot": st.Slot, "fired": fired, "root": root, "signreq": signreq,
-					"nils": nils, "signerr": signerr, "msgs": msgs, "aggjob": aggjob, "err": msgErr})
+					"nils": nils, "signerr": signerr, "msgs": msgs, "aggjob": aggjob, "err": msgErr, "zv": zv, "rooterr": rooterr})
 			case "FireAggregate":
 				w.heads.mu.Lock()
 				w.heads.calls = nil
@@ -895,22 +1088,46 @@ func TestVerifC15(t *testing.T) {
 				w.cpSub.mu.Lock()
 				w.cpSub.cps = nil
 				w.cpSub.mu.Unlock()
-				fired := w.sched.Fire(ctx, fmt.Sprintf("Sync committee aggregation for slot %d", st.Slot))
+				flt := c15Faults{cpZero: map[[2]uint64]bool{}, cpErr: st.Err}
+				for _, p := range st.Zp {
+					flt.cpZero[[2]uint64{p.V, p.Sub}] = true
+				}
+				w.setFaults(flt)
+				fired, crash, hung := w.fire(ctx, fmt.Sprintf("Sync committee aggregation for slot %d", st.Slot))
+				if abnormal(st, crash, hung) {
+					break
+				}
 				contribs := make([]verifsupport.Ev, 0)
+				w.rec.mu.Lock()
+				returned := make(map[[3]uint64]phase0.BLSSignature, len(w.rec.cpSigs))
+				for k, v := range w.rec.cpSigs {
+					returned[k] = v
+				}
+				zp := make([]verifsupport.Ev, 0)
+				for _, p := range w.rec.cpZero {
+					zp = append(zp, verifsupport.Ev{"v": p[0], "sub": p[1]})
+				}
+				cperr := w.rec.cpErrs > 0
+				w.rec.mu.Unlock()
+				c15Sort(zp)
 				w.cpSub.mu.Lock()
 				for _, cp := range w.cpSub.cps {
 					if cp == nil || cp.Message == nil || cp.Message.Contribution == nil {
 						continue
 					}
-					contribs = append(contribs, verifsupport.Ev{"slot": uint64(cp.Message.Contribution.Slot), "v": uint64(cp.Message.AggregatorIndex),
-						"sub": cp.Message.Contribution.SubcommitteeIndex, "root": c15RootID(cp.Message.Contribution.BeaconBlockRoot)})
+					cslot, cv, csub := uint64(cp.Message.Contribution.Slot), uint64(cp.Message.AggregatorIndex), cp.Message.Contribution.SubcommitteeIndex
+					sig, known := returned[[3]uint64{cslot, cv, csub}]
+					zero := cp.Signature.IsZero()
+					contribs = append(contribs, verifsupport.Ev{"slot": cslot, "v": cv, "sub": csub,
+						"root": c15RootID(cp.Message.Contribution.BeaconBlockRoot), "z": zero, "own": !zero && known && sig == cp.Signature})
 				}
 				w.cpSub.mu.Unlock()
 				c15Sort(contribs)
 				w.heads.mu.Lock()
 				headcalls := len(w.heads.calls)
 				w.heads.mu.Unlock()
-				tr.Emit(verifsupport.Ev{"sc": sc.Sc, "ev": "FireAggregate", "slot": st.Slot, "fired": fired, "contribs": contribs, "headcalls": headcalls})
+				tr.Emit(verifsupport.Ev{"sc": sc.Sc, "ev": "FireAggregate", "slot": st.Slot, "fired": fired, "contribs": contribs, "headcalls": headcalls,
+					"zp": zp, "cperr": cperr})
 			default:
 				t.Fatalf("c15: unknown step %q", st.Ev)
 			}
